@@ -417,7 +417,15 @@ func c15CreateOutside(r *Run) {
 	t := r.T
 	d, canary := c15Disk()
 	d.Put(c15Dir+"/in.dat", []byte("inside data"))
-	outside := []string{"/canary/sibling/file", c15Dir + "/../sibling/file", "/canary/arch2/x", c15Dir + "/../arch2/x", "/etc/passwd", c15Dir + "/sub/../../top.txt", "/canary/arch/../x", "/x"}
+	// a sibling directory whose name extends the archive directory's name
+	for _, p := range []string{c15Dir + "2/x", c15Dir + "-old/x"} {
+		if _, ok := d.Get(p); !ok {
+			d.Put(p, []byte("prefix-sharing sibling"))
+			canary[p] = []byte("prefix-sharing sibling")
+		}
+	}
+	outside := []string{"/canary/sibling/file", c15Dir + "/../sibling/file", "/canary/arch2/x", c15Dir + "/../arch2/x", "/etc/passwd", c15Dir + "/sub/../../top.txt", c15Dir + "/../x", "/x",
+		c15Dir + "2/x", c15Dir + "-old/x", "/canary//sibling/file", c15Dir + "/./../sibling/file", c15Dir + "//../top.txt", c15Dir + "/sub/..//../top.txt"}
 	o := outside[t.Draw(len(outside), "outside")]
 	paths := []string{c15Dir + "/in.dat", o}
 	if t.Bool(1, 2, "outside-first") {
